@@ -17,11 +17,21 @@ pub struct Frag {
     pub chunks: Vec<Vec<u8>>,
     pub idx: usize,
     pub off: usize,
+    /// 0: chunk() always returns the whole current chunk; 1 / 2: successive chunk() calls alternate between
+    /// the whole current chunk and its first byte only (starting with the whole chunk / with one byte) -
+    /// a lawful Buf: only remaining() is fixed between calls, chunk() may hand out prefixes of any length
+    pub burst: u8,
+    pub calls: std::cell::Cell<u32>,
 }
 impl Frag {
     pub fn new(chunks: Vec<Vec<u8>>) -> Frag {
-        let mut f = Frag { chunks, idx: 0, off: 0 };
+        let mut f = Frag { chunks, idx: 0, off: 0, burst: 0, calls: std::cell::Cell::new(0) };
         f.norm();
+        f
+    }
+    pub fn bursty(chunks: Vec<Vec<u8>>, mode: u8) -> Frag {
+        let mut f = Frag::new(chunks);
+        f.burst = mode;
         f
     }
     fn norm(&mut self) {
@@ -48,7 +58,16 @@ impl Buf for Frag {
     }
     fn chunk(&self) -> &[u8] {
         if self.idx < self.chunks.len() {
-            &self.chunks[self.idx][self.off..]
+            let full = &self.chunks[self.idx][self.off..];
+            if self.burst != 0 {
+                let n = self.calls.get();
+                self.calls.set(n + 1);
+                let short = (n + if self.burst == 2 { 1 } else { 0 }) % 2 == 1;
+                if short && full.len() > 1 {
+                    return &full[..1];
+                }
+            }
+            full
         } else {
             &[]
         }
@@ -136,6 +155,8 @@ pub enum Spec {
     Deque(usize, usize, Vec<u8>),
     Frag(Vec<Vec<u8>>),
     FragV(Vec<Vec<u8>>),
+    /// Frag whose chunk() alternates between the whole chunk and a one-byte prefix (mode 1 / 2)
+    Burst(Vec<Vec<u8>>, u8),
     Take(Box<Spec>, usize),
     Chain(Box<Spec>, Box<Spec>),
     Ref(Box<Spec>),
@@ -269,6 +290,7 @@ pub fn build(s: &Spec) -> (Tree, M) {
         }
         Spec::Frag(c) => (Tree::Frag(Frag::new(c.clone())), M::Leaf(c.concat())),
         Spec::FragV(c) => (Tree::FragV(FragV(Frag::new(c.clone()))), M::Leaf(c.concat())),
+        Spec::Burst(c, mode) => (Tree::Frag(Frag::bursty(c.clone(), *mode)), M::Leaf(c.concat())),
         Spec::Take(i, l) => {
             let (t, m) = build(i);
             (Tree::Take(Box::new(t).take(*l)), M::Take(Box::new(m), *l))
@@ -355,7 +377,8 @@ pub enum Op {
     /// BufRead::fill_buf then consume(k)
     Consume(usize),
     /// terminal: into_iter().collect()
-    IntoIter,
+    /// consume through IntoIter: 0 = next() loop with size_hint checks, 1.. = iterator adaptors (nth / skip / step_by / last / count)
+    IntoIter(u8),
 }
 
 pub enum Root {
@@ -605,7 +628,7 @@ pub fn apply(root: &mut Root, m: &mut M, op: Op, stats: &mut Stats) -> Result<bo
                 }
             }
         }
-        Op::IntoIter => return Ok(false),
+        Op::IntoIter(_) => return Ok(false),
     }
     Ok(true)
 }
@@ -651,6 +674,63 @@ fn into_iter_check(root: Root, m: &M) -> Result<(), Fail> {
     }
 }
 
+pub const N_ITER_MODES: u8 = 9;
+/// What an iterator adaptor chain yields, written down as bytes (None = 0xFE marker) so that the crate's
+/// IntoIter and a plain `Vec<u8>` iterator can be compared.
+fn iter_mode<I: Iterator<Item = u8>>(mut it: I, mode: u8, rem: usize) -> Vec<u8> {
+    let opt = |o: Option<u8>| -> Vec<u8> {
+        match o {
+            Some(b) => vec![1, b],
+            None => vec![0xFE],
+        }
+    };
+    match mode {
+        1 => {
+            let mut v = opt(it.nth(rem + 1));
+            v.extend(opt(it.next()));
+            v
+        }
+        2 => {
+            let mut v = opt(it.nth(rem));
+            v.extend(opt(it.next()));
+            v
+        }
+        3 => {
+            let mut v = opt(it.nth(rem.saturating_sub(1)));
+            v.extend(opt(it.next()));
+            v
+        }
+        4 => {
+            let mut v = opt(it.nth(0));
+            v.extend(opt(it.nth(1)));
+            v.extend(it);
+            v
+        }
+        5 => it.skip(rem + 1).collect(),
+        6 => it.skip(1).step_by(2).collect(),
+        7 => it.step_by(3).collect(),
+        8 => opt(it.last()),
+        _ => vec![it.count() as u8],
+    }
+}
+
+/// Terminal check: iterator adaptors on the crate's IntoIter behave like those on the flat byte sequence.
+fn into_iter_adaptors(root: Root, m: &M, mode: u8) -> Result<(), Fail> {
+    let flat = m.flat();
+    let t = match root {
+        Root::Plain(t) => t,
+        Root::Reader(r) => r.into_inner(),
+    };
+    let want = iter_mode(flat.clone().into_iter(), mode, flat.len());
+    let rem = flat.len();
+    let r = catch_unwind(AssertUnwindSafe(|| iter_mode(bytes::buf::IntoIter::new(t), mode, rem)));
+    match r {
+        Ok(got) if got == want => Ok(()),
+        Ok(got) => Err(f9("into_iter-adaptor", format!("iterator adaptor chain #{} over into_iter yielded {:02x?}, over the flat bytes {:02x?}", mode, got, want))),
+        Err(_) => Err(f9("into_iter-adaptor-panic", format!("iterator adaptor chain #{} (nth / skip / step_by / last / count) over into_iter panicked with {} bytes left", mode, rem))),
+    }
+}
+
 fn ks(rem: usize) -> Vec<usize> {
     let mut v = vec![0, 1, 2, rem.saturating_sub(1), rem, rem + 1];
     v.sort();
@@ -687,7 +767,9 @@ fn ops_at(root_is_take: bool, reader: bool, rem: usize, cur_limit: Option<usize>
             v.push(Op::Consume(k));
         }
     }
-    v.push(Op::IntoIter);
+    for mode in 0..=N_ITER_MODES {
+        v.push(Op::IntoIter(mode));
+    }
     v
 }
 
@@ -711,8 +793,12 @@ pub fn run_sequence_inner(spec: &Spec, reader: bool, seq: &[Op], parity_odd: boo
         observe(&root, &m, stats)?;
         let mut cont = true;
         for (i, op) in seq.iter().enumerate() {
-            if let Op::IntoIter = op {
-                into_iter_check(root, &m)?;
+            if let Op::IntoIter(mode) = op {
+                if *mode == 0 {
+                    into_iter_check(root, &m)?;
+                } else {
+                    into_iter_adaptors(root, &m, *mode)?;
+                }
                 return Ok(None);
             }
             cont = apply(&mut root, &mut m, *op, stats)?;
@@ -823,7 +909,7 @@ fn spec_len(s: &Spec) -> usize {
     match s {
         Spec::Slice(d) | Spec::Bytes(_, d) | Spec::BytesMut(_, d) | Spec::Deque(_, _, d) => d.len(),
         Spec::Cursor(d, p) => d.len().saturating_sub(*p as usize),
-        Spec::Frag(c) | Spec::FragV(c) => c.iter().map(|x| x.len()).sum(),
+        Spec::Frag(c) | Spec::FragV(c) | Spec::Burst(c, _) => c.iter().map(|x| x.len()).sum(),
         Spec::Take(i, l) => spec_len(i).min(*l),
         Spec::Chain(a, b) => spec_len(a) + spec_len(b),
         Spec::Ref(i) | Spec::Dyn(i) => spec_len(i),
@@ -968,6 +1054,7 @@ fn spec_kind_sig(s: &Spec, out: &mut String) {
         Spec::Deque(..) => out.push('q'),
         Spec::Frag(_) => out.push('f'),
         Spec::FragV(_) => out.push('v'),
+        Spec::Burst(..) => out.push('u'),
         Spec::Take(i, _) => {
             out.push_str("T(");
             spec_kind_sig(i, out);
